@@ -514,3 +514,8 @@ Section JR.
     lra.
   Qed.
 End JR.
+
+(** the two parameter domains are inhabited: 63 steps per synchrotron period, e1 = 0.03, delta = 7/32 *)
+Lemma dom_example :
+  dom_doc (1 / 10) (1003 / 10000) (3 / 100) (7 / 32) /\ dom_ud (1 / 10) (1003 / 10000) (3 / 100).
+Proof. unfold dom_doc, dom_ud. lra. Qed.
